@@ -12,14 +12,7 @@ CONSTANTS TauSolve,   \* backward-error tolerance of a line solve, e.g. "1/10000
 Trace == JsonDeserialize(IOEnv.TRACE_FILE)
 VARIABLE i
 F(name, ok) == IF ok THEN {} ELSE {name}
-U == RDiv("1", RPow("2", 53))          \* unit round-off of a double
-
 AllNum(q) == \A j \in 1..Len(q) : IsNum(q[j])
-
-\* ---- Chang-Cooper weights supplied by the recorder (exp is never evaluated here) ----
-\* conditioning allowance of the documented double-precision delj formula: its relative error
-\* is about 8u/z^2 with z = w/V (it subtracts nearly equal numbers for small z)
-DeljErr(z) == IF RIsZero(z) THEN "0" ELSE RMin("1", RDiv(RMul("16", U), RSq(z)))
 
 \* one grid line of a kernel record
 LineOK(r, ix, tau) ==
@@ -37,13 +30,7 @@ LineOK(r, ix, tau) ==
         y   == [v \in 1..N |-> r.out.d[Flat(phi.sh, WithAxis(ix, k, v - 1))]]
         rhs == [v \in 1..N |-> RDiv(phi.d[Flat(phi.sh, WithAxis(ix, k, v - 1))], r.in.dt)]
         invdt == RDiv("1", r.in.dt)
-        \* extra slack when the Chang-Cooper switch is on (see DeljErr)
-        dx == Dx(g) df == DFactor(g) xI == XInt(g)
-        z(j) == RDiv(RMul(RMul("2", Mf(xI[j], k, oth, p)), dx[j]), Vf(xI[j], p))
-        e(j) == RMul(RAbs(Mf(xI[j], k, oth, p)), DeljErr(z(j)))
-        slack(v) == IF ~r.in.delj THEN "0"
-                    ELSE RMul(df[v], RAdd(IF v > 1 THEN RMul(e(v - 1), RAdd(RAbs(y[v - 1]), RAbs(y[v]))) ELSE "0",
-                                          IF v < N THEN RMul(e(v), RAdd(RAbs(y[v]), RAbs(y[v + 1]))) ELSE "0"))
+        slack(v) == IF ~r.in.delj THEN "0" ELSE DeljResidualSlack(r.in.grids, k, ix, p, y, v)
     IN  /\ AllNum(y)
         /\ \A v \in 1..N : RLeq(RAbs(RSub(rhs[v], RowApply(sys, invdt, y, v))),
                                 RAdd(RMul(tau, RowScale(sys, invdt, y, rhs, v)), slack(v)))
